@@ -594,6 +594,107 @@ pub proof fn lemma_rle16_decode_start(s: Seq<u8>, width: nat)
 {
     reveal(rle16_decode);
 }
+// ----- FGBG_IMAGE pixel statement, proved branch by branch (each obligation is a straight-line fact of the branch it is stated in; the generic
+// lemma_rle16_pixel would need a case analysis over 6 paths per statement, 8 statements deep in the unrolled loops)
+/// the bit cursor and the mask byte are in place for pixel k; pos = input offset after pixel k
+#[verifier::opaque]
+pub open spec fn rle16_fgbg_ready(s: Seq<u8>, o: RleOrder, k: int, mask: u8, mixmask: u8, pos: nat) -> bool {
+    &&& 0 <= k < rle16_npix(o)
+    &&& mixmask == rle16_bit(k % 8)
+    &&& mask == rle16_maskbyte(s, o, k)
+    &&& pos == rle16_pos(o, k + 1)
+    &&& pos <= s.len()
+}
+/// pixel k1 - 1 is stored and `img` extended, `count` and `x` still have to be stepped
+#[verifier::opaque]
+pub open spec fn rle16_pending(s: Seq<u8>, width: nat, st0: RleState, o: RleOrder, k1: int, opcode: u8, count: u32, bicolour: bool, pos: nat,
+    img1: Seq<u16>, mix: u16, insertmix: bool, colour1: u16, colour2: u16, fom_mask: u8, mask: u8, mixmask: u8,
+    out2: Seq<u16>, o0: Seq<u16>, orow: Seq<u16>, imgrow: Seq<u16>, top: int, l: int, x: int, base: int, prev: Option<usize>) -> bool
+{
+    &&& count > 0
+    &&& rle16_order_inv(s, width, st0, o, k1, opcode, (count - 1) as u32, bicolour, pos, img1, mix, insertmix, colour1, colour2, fom_mask, mask, mixmask)
+    &&& rle16_row_inv(out2, o0, orow, img1, imgrow, width as int, top, l, x + 1, base, prev)
+}
+proof fn lemma_rle16_shift_table(m: u8)
+    ensures (m == 0u8 ==> m << 1u8 == 0u8) && (m == 1u8 ==> m << 1u8 == 2u8) && (m == 2u8 ==> m << 1u8 == 4u8) && (m == 4u8 ==> m << 1u8 == 8u8)
+      && (m == 8u8 ==> m << 1u8 == 16u8) && (m == 16u8 ==> m << 1u8 == 32u8) && (m == 32u8 ==> m << 1u8 == 64u8) && (m == 64u8 ==> m << 1u8 == 128u8) && (m == 128u8 ==> m << 1u8 == 0u8)
+{
+    assert((m == 0u8 ==> m << 1u8 == 0u8) && (m == 1u8 ==> m << 1u8 == 2u8) && (m == 2u8 ==> m << 1u8 == 4u8) && (m == 4u8 ==> m << 1u8 == 8u8)
+      && (m == 8u8 ==> m << 1u8 == 16u8) && (m == 16u8 ==> m << 1u8 == 32u8) && (m == 32u8 ==> m << 1u8 == 64u8) && (m == 64u8 ==> m << 1u8 == 128u8) && (m == 128u8 ==> m << 1u8 == 0u8)) by(bit_vector);
+}
+/// `mixmask <<= 1` did not run off the byte: same mask byte, next bit
+pub proof fn lemma_rle16_fgbg_shift(dz: bool, s: Seq<u8>, width: nat, st0: RleState, po: Option<RleOrder>, k: int, opcode: u8, count: u32, bicolour: bool, pos: nat,
+    img: Seq<u16>, mix: u16, insertmix: bool, colour1: u16, colour2: u16, fom_mask: u8, mask: u8, mixmask: u8, sh: u8)
+    requires
+        dz || (po is Some && po->Some_0.kind is FgBgImage
+            && rle16_order_inv(s, width, st0, po->Some_0, k, opcode, count, bicolour, pos, img, mix, insertmix, colour1, colour2, fom_mask, mask, mixmask)),
+        sh == rle16_shl1(mixmask), count > 0,
+    ensures dz || (sh != 0 ==> rle16_fgbg_ready(s, po->Some_0, k, mask, sh, pos)),
+{
+    if !dz {
+        reveal(rle16_order_inv); reveal(rle16_fgbg_ready);
+        lemma_rle16_shift_table(mixmask);
+    }
+}
+/// `mixmask <<= 1` gave 0: the next mask byte (the fixed one of a SPECIAL order, or the next input byte) is loaded and the bit cursor restarts at 1
+pub proof fn lemma_rle16_fgbg_reload(dz: bool, s: Seq<u8>, width: nat, st0: RleState, po: Option<RleOrder>, k: int, opcode: u8, count: u32, bicolour: bool, pos: nat,
+    img: Seq<u16>, mix: u16, insertmix: bool, colour1: u16, colour2: u16, fom_mask: u8, mask: u8, mixmask: u8, sh: u8, mask2: u8, pos2: nat)
+    requires
+        dz || (po is Some && po->Some_0.kind is FgBgImage
+            && rle16_order_inv(s, width, st0, po->Some_0, k, opcode, count, bicolour, pos, img, mix, insertmix, colour1, colour2, fom_mask, mask, mixmask)),
+        sh == rle16_shl1(mixmask), sh == 0, count > 0,
+        mask2 == (if fom_mask != 0 { fom_mask } else { cursor_rest(s, pos)[0] }),
+        fom_mask == 0 ==> cursor_rest(s, pos).len() >= 1 && pos2 == pos + 1,
+        fom_mask != 0 ==> pos2 == pos,
+    ensures dz || rle16_fgbg_ready(s, po->Some_0, k, mask2, 1, pos2),
+{
+    if !dz {
+        reveal(rle16_order_inv); reveal(rle16_fgbg_ready);
+        lemma_rle16_shift_table(mixmask);
+    }
+}
+/// the pixel is stored in one of the two branches of `if (mask & mixmask) != 0` (bit = which one)
+pub proof fn lemma_rle16_fgbg_put(dz: bool, s: Seq<u8>, width: nat, st0: RleState, po: Option<RleOrder>, k: int, opcode: u8, count: u32, bicolour: bool, pos: nat,
+    img: Seq<u16>, mix: u16, insertmix: bool, colour1: u16, colour2: u16, fom_mask: u8, mask: u8, mixmask: u8, mask2: u8, mixmask2: u8, pos2: nat,
+    out: Seq<u16>, out2: Seq<u16>, o0: Seq<u16>, orow: Seq<u16>, imgrow: Seq<u16>, top: int, l: int, x: int, base: int, prev: Option<usize>, bit: bool, v: u16)
+    requires
+        dz || (po is Some && po->Some_0.kind is FgBgImage
+            && rle16_order_inv(s, width, st0, po->Some_0, k, opcode, count, bicolour, pos, img, mix, insertmix, colour1, colour2, fom_mask, mask, mixmask)
+            && rle16_fgbg_ready(s, po->Some_0, k, mask2, mixmask2, pos2)
+            && rle16_row_inv(out, o0, orow, img, imgrow, width as int, top, l, x, base, prev)),
+        x < width, count > 0,
+        bit == ((mask2 & mixmask2) != 0),
+        v == (if bit { rle16_code_fg(out, prev, x, mix) } else { rle16_code_bg(out, prev, x) }),
+        out2 == out.update(l + x, v),
+    ensures
+        dz || rle16_pending(s, width, st0, po->Some_0, k + 1, opcode, count, bicolour, pos2, img.push(v), mix, insertmix, colour1, colour2, fom_mask, mask2, mixmask2,
+            out2, o0, orow, imgrow, top, l, x, base, prev),
+{
+    if !dz {
+        let o = po->Some_0;
+        lemma_rle16_row_facts(out, o0, orow, img, imgrow, width as int, top, l, x, base, prev);
+        lemma_rle16_put(out, out2, o0, orow, img, imgrow, width as int, top, l, x, base, prev, v);
+        assert(0u16 ^ mix == mix) by(bit_vector);
+        reveal(rle16_order_inv); reveal(rle16_fgbg_ready); reveal(rle16_pending); reveal(rle16_above);
+        let ins = rle16_insert(st0, width, o);
+        assert(rle16_write(s, width, o, mix, ins, st0.img, (k + 1) as nat) == img.push(rle16_pixel(s, width, o, mix, ins, img, k)));
+        assert(v == rle16_pixel(s, width, o, mix, ins, img, k));
+    }
+}
+/// `count -= 1; x += 1;`
+pub proof fn lemma_rle16_finish(dz: bool, s: Seq<u8>, width: nat, st0: RleState, po: Option<RleOrder>, k1: int, opcode: u8, count: u32, bicolour: bool, pos: nat,
+    img1: Seq<u16>, mix: u16, insertmix: bool, colour1: u16, colour2: u16, fom_mask: u8, mask: u8, mixmask: u8,
+    out2: Seq<u16>, o0: Seq<u16>, orow: Seq<u16>, imgrow: Seq<u16>, top: int, l: int, x: int, base: int, prev: Option<usize>, count2: u32, x2: int)
+    requires
+        dz || rle16_pending(s, width, st0, po->Some_0, k1, opcode, count, bicolour, pos, img1, mix, insertmix, colour1, colour2, fom_mask, mask, mixmask,
+            out2, o0, orow, imgrow, top, l, x, base, prev),
+        count2 == count - 1, x2 == x + 1,
+    ensures
+        dz || (rle16_order_inv(s, width, st0, po->Some_0, k1, opcode, count2, bicolour, pos, img1, mix, insertmix, colour1, colour2, fom_mask, mask, mixmask)
+            && rle16_row_inv(out2, o0, orow, img1, imgrow, width as int, top, l, x2, base, prev)),
+{
+    reveal(rle16_pending);
+}
 """, mod="rle", name="rle16_specs")
 
 ZR = "rle16_zero_run(input@, 0)"
@@ -857,7 +958,39 @@ for _i in range(24):
 HINTS.append((r"x \+= 1;", 1, _pixel(_INSERT_VALUE, "BgRun"), "after"))
 for _s in range(N_SITES):
     for _j in range(9):
-        HINTS.append((r"x \+= 1;", 2 + 9 * _s + _j, _pixel(_SITE_VALUE[_s], _SITE_KIND[_s]), "after"))
+        if _SITE_KIND[_s] != "FgBgImage":
+            HINTS.append((r"x \+= 1;", 2 + 9 * _s + _j, _pixel(_SITE_VALUE[_s], _SITE_KIND[_s]), "after"))
+
+# FGBG_IMAGE sites (4: previous line e, 5: first line): the pixel statement is a block with three nested decisions (bit cursor ran off the byte?
+# fixed mask or input byte?  bit set?) and a `?`; the step is proved branch by branch with straight-line obligations (see fgbg lemmas)
+_OI_ARGS = "dz, input@, width as nat, st0, po, k, opcode, g_count, g_bic, g_pos, img, mix, insertmix, colour1, colour2, fom_mask, g_mask, g_mm"
+_FG_SHIFT = "proof { lemma_rle16_fgbg_shift(" + _OI_ARGS + ", mixmask); }"
+_FG_RELOAD = "proof { lemma_rle16_fgbg_reload(" + _OI_ARGS + ", 0u8, mask, input_cursor.pos()); }"
+
+
+def _fg_put(value, bit):
+    return ("proof { let v = " + value + "; lemma_rle16_fgbg_put(" + _OI_ARGS + ", mask, mixmask, input_cursor.pos(), "
+            "ocur, output@, o0, orow, imgrow, top, line->Some_0 as int, g_x, base, prevline, " + bit + ", v); img = img.push(v); }")
+
+
+_FG_FINISH = """proof {
+    lemma_rle16_finish(dz, input@, width as nat, st0, po, k + 1, opcode, g_count, g_bic, input_cursor.pos(), img, mix, insertmix, colour1, colour2, fom_mask, mask, mixmask,
+        output@, o0, orow, imgrow, top, line->Some_0 as int, g_x, base, prevline, count, x as int);
+    k = k + 1;
+    """ + _SNAP + """
+}"""
+_ASSIGN = r"output\[line\.unwrap\(\) \+ x\] = "
+for _j in range(18):
+    HINTS.append((r"mixmask <<= 1;", 1 + _j, _FG_SHIFT, "after"))
+    HINTS.append((r"mixmask = 1;", 1 + _j, _FG_RELOAD, "after"))
+    HINTS.append((r"x \+= 1;", 2 + 9 * 4 + _j, _FG_FINISH, "after"))
+for _j in range(9):
+    # site 4 (previous line e): `= output[e + x] ^ mix;` occurs before in the insert-fg-pel pixel (1) and in site 2 (9); `= output[e + x];` in site 0 (9)
+    HINTS.append((_ASSIGN + r"output\[e \+ x\] \^ mix;", 11 + _j, _fg_put("ocur[e + g_x] ^ mix", "true"), "after"))
+    HINTS.append((_ASSIGN + r"output\[e \+ x\];", 10 + _j, _fg_put("ocur[e + g_x]", "false"), "after"))
+    # site 5 (first line): `= mix;` occurs before in the insert-fg-pel pixel (1) and in site 3 (9); `= 0;` in site 1 (9)
+    HINTS.append((_ASSIGN + r"mix;", 11 + _j, _fg_put("mix", "true"), "after"))
+    HINTS.append((_ASSIGN + r"0;", 10 + _j, _fg_put("0u16", "false"), "after"))
 
 CLAIMS = [
     (r"mixmask = 0;", 1, _CLAIM_INSERT, "after", "C09", "insert-fg-pel-guard"),
